@@ -141,7 +141,7 @@ def load(config, text, budget=True, alarm=ALARM_S, direct=False):
                     p = make_parser(config, lexer_fn if budget else None)
                     m = p.parse(text)
                 return ("ok", m)
-            except BudgetExceeded as e:
+            except BudgetExceeded:
                 return ("spin", f"more than {STEP_C}*(len+10) = {STEP_C * (len(text) + 10)} token-stream operations")
             except HardTimeout:
                 return ("spin", f"no result after {alarm} s of CPU time")
